@@ -20,7 +20,11 @@ def run_one(prop: str, tier: str, seed: int, repo_root=None, overlay=None, quiet
     mod = importlib.import_module(f"hivecheck.props.{prop.lower()}")
     repo = Repo(repo_root, overlay)
     ctx = Ctx(prop, repo, tier, seed, quiet)
-    mod.run(ctx)
+    try:
+        mod.run(ctx)
+    except AnalysisError as e:
+        # a violation already found is the more specific answer; otherwise this ends as exit 2
+        ctx.soft_fail(str(e))
     ctx.end_of_run()
     return ctx, mod
 
